@@ -150,6 +150,135 @@ def run(report, max_order):
         seconds=round(time.time() - t0, 1))
 
 
+def run_append_output(report, max_order):
+    """Hoare triples of AppendOutput.write_declarations / write_cleanup (assemble and evaluate kernels), per mode vector:
+
+      write_declarations  {dims >= 0, cap0 >= 1}
+            => every compressed level l: len(pos_l) = its capacity >= 1, exactly (product of the dims above) + 1 when all
+               levels above are dense; pos_l[0] = 0; len(crd_l) = its capacity >= 1; p_l = 0;
+               len(vals) = its capacity, exactly the product of all dims when no level is compressed; sizes >= 0
+      write_cleanup       {0 <= p_l, arrays at least as long as the structure: len(pos_l) >= n_(l-1) + 1 (= for the first compressed level), len(crd_l) >= p_l,
+                           len(vals) >= padded}   with n_l the number of positions of level l (dense: n*dim, compressed: p_l)
+            => len(pos_l) = n_(l-1) + 1, len(crd_l) = p_l, len(vals) >= n_last (exactly the structure's positions, plus
+               the scratch row when some level is compressed); every realloc size >= 0
+    """
+    import tensora.iteration_graph.outputs._append as A
+    from tensora.format import Mode
+    from tensora.ir import ast as ir
+    from tensora.iteration_graph.identifiable_expression import ast as ie
+    from tensora.iteration_graph.outputs import AppendOutput
+    from tensora.kernel_type import KernelType
+
+    from standins import whole_kernel as WK
+
+    saved = A.default_array_size
+    A.default_array_size = ir.Variable(WK.CAP0)
+    t0 = time.time()
+    n_shapes = 0
+    try:
+        for order in range(0, max_order + 1):
+            for modes in itertools.product([Mode.dense, Mode.compressed], repeat=order):
+                n_shapes += 1
+                idx = tuple(f"i{k}" for k in range(order))
+                tensor = ie.Tensor("0_T", "T", idx, tuple(modes))
+                out = AppendOutput(tensor, 0)
+                shape = "".join(x.character for x in modes) or "scalar"
+                dimv = [Int(f"{n}_dim") for n in idx]
+                for kt in (KernelType.evaluate, KernelType.assemble):
+                    # ---------------- write_declarations ----------------
+                    frag = out.write_declarations(kt).finalize()
+                    ctx = WK.Ctx(_FakeMember, None, kt)
+                    ctx.dims = {"T": dimv}
+                    st = WK.State()
+                    st.ptrs["T"] = ("TENSOR", "T")
+                    cap0 = Int(WK.CAP0)
+                    st.ints[WK.CAP0] = cap0
+                    st.path.append(cap0 >= 1)
+                    for n, dv in zip(idx, dimv):
+                        st.ints[f"{n}_dim"] = dv
+                        st.path.append(dv >= 0)
+                    for l, m in enumerate(modes):
+                        if m == Mode.compressed:
+                            st.ptrs[f"T_{l}_pos"] = (f"T.{l}.pos", IntVal(0))
+                            st.ptrs[f"T_{l}_crd"] = (f"T.{l}.crd", IntVal(0))
+                            st.alen[f"T.{l}.pos"] = IntVal(0)
+                            st.alen[f"T.{l}.crd"] = IntVal(0)
+                    st.ptrs["T_vals"] = ("T.vals", IntVal(0))
+                    st.alen["T.vals"] = IntVal(0)
+                    finals = WK.run(frag, st, ctx)
+                    _record_checks(report, ctx, f"write_declarations[{shape},{kt.name}]")
+                    for k, f in enumerate(finals):
+                        conj = []
+                        prod = IntVal(1)
+                        all_dense = True
+                        for l, m in enumerate(modes):
+                            if m == Mode.dense:
+                                prod = prod * dimv[l]
+                                continue
+                            pos, crd = f"T.{l}.pos", f"T.{l}.crd"
+                            conj += [f.alen[pos] >= 1, f.alen[pos] == f.ints[f"T_{l}_pos_capacity"], f.aint[pos][0] == 0,
+                                     f.alen[crd] >= 1, f.alen[crd] == f.ints[f"T_{l}_crd_capacity"], f.ints[f"p_0_T_{l}"] == 0]
+                            if all_dense:
+                                conj.append(f.alen[pos] == prod + 1)
+                            all_dense = False
+                        conj.append(f.alen["T.vals"] == f.ints["T_vals_capacity"])
+                        conj.append(f.alen["T.vals"] == prod if all_dense else f.alen["T.vals"] >= 1)
+                        _oblige(report, f"fragment:write_declarations[{shape},{kt.name}]:post#{k}", f.path, And(*conj), "AppendOutput.write_declarations")
+                    # ---------------- write_cleanup ----------------
+                    frag = out.write_cleanup(kt).finalize()
+                    ctx = WK.Ctx(_FakeMember, None, kt)
+                    ctx.dims = {"T": dimv}
+                    st = WK.State()
+                    st.ptrs["T"] = ("TENSOR", "T")
+                    for n, dv in zip(idx, dimv):
+                        st.ints[f"{n}_dim"] = dv
+                        st.path.append(dv >= 0)
+                    npos = IntVal(1)  # positions of the level above
+                    padded = IntVal(1)
+                    want = {}
+                    any_compressed = False
+                    for l, m in enumerate(modes):
+                        if m == Mode.dense:
+                            npos = npos * dimv[l]
+                            padded = padded * dimv[l]
+                            continue
+                        any_compressed = True
+                        pl = Int(f"p{l}")
+                        st.ints[f"p_0_T_{l}"] = pl
+                        st.path.append(pl >= 0)
+                        pos, crd = f"T.{l}.pos", f"T.{l}.crd"
+                        lp, lc = Int(f"len_pos{l}"), Int(f"len_crd{l}")
+                        st.ptrs[f"T_{l}_pos"] = (pos, IntVal(0))
+                        st.ptrs[f"T_{l}_crd"] = (crd, IntVal(0))
+                        st.alen[pos], st.alen[crd] = lp, lc
+                        st.aint[pos] = Array(f"pos{l}", IntSort(), IntSort())
+                        st.aint[crd] = Array(f"crd{l}", IntSort(), IntSort())
+                        # a pos array below dense levels only was allocated with its exact final size (post of
+                        # write_declarations) and is never grown; any other was grown on demand
+                        st.path += [lp == npos + 1 if not any(mm == Mode.compressed for mm in modes[:l]) else lp >= npos + 1, lc >= pl, npos >= 0]
+                        want[pos], want[crd] = npos + 1, pl
+                        npos = pl
+                        padded = pl + 1
+                    lv = Int("len_vals")
+                    st.ptrs["T_vals"] = ("T.vals", IntVal(0))
+                    st.alen["T.vals"] = lv
+                    st.path.append(lv >= (padded if any_compressed else npos))
+                    finals = WK.run(frag, st, ctx)
+                    _record_checks(report, ctx, f"write_cleanup[{shape},{kt.name}]")
+                    for k, f in enumerate(finals):
+                        conj = [f.alen[a] == w for a, w in want.items()]
+                        conj.append(f.alen["T.vals"] >= npos)
+                        if any_compressed:
+                            conj.append(f.alen["T.vals"] == padded)
+                        _oblige(report, f"fragment:write_cleanup[{shape},{kt.name}]:post#{k}", f.path, And(*conj), "AppendOutput.write_cleanup")
+    finally:
+        A.default_array_size = saved
+    report.functions += ["tensora.iteration_graph.outputs._append.AppendOutput.write_declarations", "tensora.iteration_graph.outputs._append.AppendOutput.write_cleanup"]
+    report.extra.setdefault("proved_per_shape", {})["AppendOutput fragments"] = dict(
+        shapes=n_shapes, bound=f"every mode vector of order 0..{max_order} x evaluate/assemble; each triple holds for all run-time states, all dimensions >= 0 and all initial capacities >= 1",
+        seconds=round(time.time() - t0, 1))
+
+
 def _oblige(report, oid, hyps, goal, fn):
     t0 = time.time()
     r = _valid(hyps, goal)
